@@ -24,8 +24,9 @@ def rules_of(g):
 # R1: derivation enumerator
 
 
-def enum_derivs(rules, S, V, D):
-    """rules: list of (head, body); rule i carries the indeterminate x_i.
+def enum_derivs(rules, S, V, D, var_of=None):
+    """rules: list of (head, body); rule i carries the indeterminate x_i
+    (x_{var_of[i]} if given: identical rules may share one indeterminate).
     Returns {yield tuple: Poly}: coefficient of a monomial = number of leftmost
     derivations (= derivation trees) from S using exactly that multiset of rules,
     for all derivations with at most D rule applications."""
@@ -46,7 +47,7 @@ def enum_derivs(rules, S, V, D):
         if len(used) >= D:
             return
         for i, b in byhead.get(s, ()):
-            rec(form[:k] + b + form[k + 1 :], used + (i,))
+            rec(form[:k] + b + form[k + 1 :], used + (i if var_of is None else var_of[i],))
 
     rec((S,), ())
     return {y: Poly(t) for y, t in out.items()}
